@@ -10,6 +10,13 @@ Line-protocol component for C14.  A case builds one graph and queries it:
     path  dfs|dfsi|bfs <s> <v>    one `To(v)`
     orders dfs|dfsi|bfs           pre/post orders and ranks
     cc | scc | cycle | topo | mst | spt <s> | sptto <s> <v>
+    adj                           the adjacency lists `Adj(v)` of the graph as it is now
+    reverse                       the adjacency lists of `Reverse()` (directed kinds)
+
+`edge` lines may follow queries: the graph value grows and every query is answered on the graph as it is at
+that point (the harness keeps ONE Go graph object per case, so caches that `AddEdge` fails to invalidate
+show up).  A case header may carry `wexp=k`: the harness then hands the library the weights scaled by 2^k
+and divides what it reads back; the Model keeps the integer weights, so the lines are the same.
 
 `scc`, `mst`, `spt`, `sptto` additionally print `cert=<b>`: the Spec certificate evaluated on the Model's
 result (the harness prints `cert=true`, so a failing certificate is a difference).
@@ -56,6 +63,11 @@ def showEdgeU (e : Edge) : String := s!"{e.a}-{e.b}:{e.w}"
 def showSptAns : Option (List Edge × Int) → String
   | some (p, d) => s!"{d}[" ++ " ".intercalate (p.map showEdgeD) ++ "]"
   | none => "-"
+
+def showAdj (weighted : Bool) (g : Graph) : String :=
+  " ".intercalate ((List.range g.n).map fun v =>
+    s!"{v}:[" ++ " ".intercalate ((g.adj.getD v []).map fun x =>
+      if weighted then s!"{x.to}:{x.e.w}" else s!"{x.to}") ++ "]")
 
 def outcomeLine {α : Type} (o : Outcome α) (f : α → String) : String × Bool :=
   match o with
@@ -118,6 +130,10 @@ def runOp (st : S) (f : List String) : String × Bool × S :=
         s!"pre={showNatList o.preOrder.toList} post={showNatList o.postOrder.toList} prerank={showNatList o.preRank.toList} postrank={showNatList o.postRank.toList}"
       (l, dead, st)
     | none => bad
+  | ["adj"] => ("ok " ++ showAdj st.kind.isWeighted g, false, st)
+  | ["reverse"] =>
+    if !st.kind.isDirected then bad
+    else ("ok " ++ showAdj st.kind.isWeighted g.reverse, false, st)
   | ["cc"] =>
     if st.kind.isDirected then bad
     else
